@@ -112,6 +112,17 @@ def expected_call(element):
 
 
 def element_node(element, style):
+    """The YAML node of one pipeline element; with "anchor" the node is anchored (&name),
+    with "alias" it is written as *name only (the element repeats an anchored one)"""
+    if element.get("alias"):
+        return yt.scalar("*" + element["alias"])
+    node = _element_node(element, style)
+    if element.get("anchor"):
+        node.tag = ("&%s %s" % (element["anchor"], node.tag or "")).strip()
+    return node
+
+
+def _element_node(element, style):
     flow = style == "flow"
     form, cls = element["form"], element["cls"]
     args = [value_node(kind, flow) for kind in element["args"]]
@@ -422,6 +433,39 @@ def grid_cases(prefix, size, parity, style, all_patterns_fail):
                         yield case, entries
 
 
+def repeat_cases(size, parity, style):
+    """One element written at two positions of the same pipeline: as a plain repetition of
+    the same text, or anchored (&r) at the first and aliased (*r) at the second position.
+    Each position is an element of its own: constructed once, linked to its own successor"""
+    for first, second in itertools.combinations(range(size - 1), 2):
+        for form in HEAD_FORMS:
+            for others in HEAD_FORMS:
+                forms = [others] * (size - 1) + ["tagseq"]
+                forms[first] = forms[second] = form
+                for pattern in range(len(VALUE_KINDS)):
+                    arguments = [grid_element(f, 2 * pos, pattern)
+                                 for pos, f in enumerate(forms)]
+                    arguments[second] = arguments[first]
+                    for mode in ("copy", "alias"):
+                        for fail in (None, first, second):
+                            if fail is not None and pattern:
+                                continue
+                            case = make_case(forms, arguments, parity, style, None)
+                            elements = case["elements"]
+                            elements[second]["cls"] = elements[first]["cls"] = (
+                                "VDecoFail" if fail is not None else
+                                "VDeco1" + ("E" if (first + parity) % 2 == 0 else "L"))
+                            if fail is not None:
+                                # both positions name the failing class: the one further
+                                # back is constructed first and stops the load
+                                case["fail"] = second
+                            if mode == "alias":
+                                elements[first]["anchor"] = "r"
+                                elements[second]["alias"] = "r"
+                            case["repeat"] = [first, second, mode]
+                            yield case, BOTH
+
+
 def small_options(tail, max_arity):
     """Every (form, args, kwargs) of one element with arity 0..max_arity"""
     options = [("bare", (), {})]
@@ -455,6 +499,8 @@ def shard(args):
     kind = args[0]
     if kind == "grid":
         cases = grid_cases(*args[1:])
+    elif kind == "repeat":
+        cases = repeat_cases(*args[1:])
     else:
         cases = small_cases(*args[1:])
     try:
@@ -499,6 +545,8 @@ def run(ctx):
             count = len(small_options(size == 1, small_arity[size]))
             for index in range(count):
                 shards.append(("small", size, index, small_arity[size], parity, style))
+        for size in (3, 4):
+            shards.append(("repeat", size, parity, style))
     ctx.pmap(shard, shards, chunksize=1)
     ctx.meta.update(
         rule="YAML documents with a pipeline of n elements: every assignment of the forms "
@@ -510,6 +558,9 @@ def run(ctx):
              "values for n = 1 with every arity 0..2 and n = 2 with every arity 0..1; "
              "every document through load_pipeline(yaml.load(text, COBalDLoader)), those "
              "with n <= 4 (and n = 5 with value rotation 0) also through load(path); "
+             "plus, for n in {3, 4}: one element at two of the non-tail positions (every "
+             "pair) in every form, as the same text twice or as anchor + alias, x the "
+             "form of the other elements x the value rotations; "
              "non-trivial = at least two elements (something is linked); distinct by the "
              "full case"
              % (HEAD_FORMS, VALUE_KINDS, STYLES,
